@@ -253,7 +253,7 @@ def _step(s, op, ctx):
         model_evaluate(False)
         tot = bd["inter"].body_flow_forces.sum(axis=1)[:dim]
         want = -bd["F"].sum(axis=1)
-        tol = K_TOL * s["eps"] * (bd["S_F"] * bd["n"]) + 1e-300
+        tol = K_TOL * s["eps"] * (bd["S_F"] * bd["n"]) + 64 * float(np.finfo(real_t).tiny) * bd["n"]
         if np.any(np.abs(tot - want) > tol):
             raise Violation(f"body {bi}: net flow force {tot.tolist()} != -sum of PI marker forces {want.tolist()}")
         bd["hist"].append("eval")
